@@ -195,7 +195,7 @@ func ruleBlockSource(c *Ctx, r *Report, prefix string) {
 	}
 	var xz *ssa.Parameter
 	for _, p := range fn.Params {
-		if p.Name() == "xz" {
+		if isRefParam(p, "xz") {
 			xz = p
 		}
 	}
